@@ -3,3 +3,4 @@ pub mod iter;
 pub mod range;
 pub mod slice;
 pub mod vec;
+pub(crate) mod taken;
